@@ -509,6 +509,23 @@ class FEtags(Family):
                     O.etags(v)[-1], is_base=is_base)
 
 
+_DQ = []
+
+
+def dquote_policy():
+    """Which reading of a quoted cookie value this implementation applies ('strip' | 'keep'), observed once on the
+    non-empty value "q" -- the statement leaves the choice open, not the consistency."""
+    if not _DQ:
+        seen = set()
+        for stack in STACKS:
+            try:
+                seen.add(build({'headers': [('Cookie', 'probe="q"')]}, stack).cookies.get('probe'))
+            except Exception:   # noqa: BLE001
+                seen.add(None)
+        _DQ.append('strip' if seen == {'q'} else ('keep' if seen == {'"q"'} else None))
+    return _DQ[0]
+
+
 class FCookies(Family):
     name = 'cookies'
 
@@ -537,7 +554,7 @@ class FCookies(Family):
 
     def case(self, v, is_base):
         a, b = self.n['ck1'], self.n['ck2']
-        vd = O.cookie_pairs(v)
+        vd = O.cookie_pairs(v, dquote_policy())
         if vd[0] == 'VALID':
             order, multi = [], {}
             for name, alts in vd[1]:
@@ -1173,7 +1190,7 @@ def check(rep):
         'dates: the properties support IMF-fixdate only (documented); the obsolete formats are VALID only with obs_date=True; '
         'rfc850 two-digit years may resolve to either century',
         'Range: only a single range is supported (documented): multi-range and suffix-length 0 count as INVALID',
-        'quoted cookie values: with or without the DQUOTEs; IPv6 hosts: with or without brackets; proto: lower-cased or as sent',
+        'quoted cookie values: with or without the DQUOTEs, but ONE reading for all of them (observed on a non-empty value); IPv6 hosts: with or without brackets; proto: lower-cased or as sent',
         'a comma inside a quoted Accept parameter is C11 territory and is treated as unspecified here',
         'response round trip: years >= 1970, second precision, naive or UTC-aware datetimes',
     ]
